@@ -562,8 +562,11 @@ def parse_options_header(value: str | None) -> tuple[str, dict[str, str]]:
         if match:
             # key*0=a; key*1=b becomes key=ab
             pk = pk[: match.start()]
-            options[pk] = options.get(pk, "") + pv
-        else:
+            pv = options.get(pk, "") + pv
+
+        # A key that only consisted of "*" or a continuation marker is
+        # empty now, ignore it like other empty keys.
+        if pk:
             options[pk] = pv
 
     return value, options
